@@ -82,7 +82,7 @@ def run_property(prop, mod, tier="quick", seed=0, update_lock=False):
     lock = load_json(LOCK, {})
     thorough = tier == "thorough"
     units = mod.units(tier)
-    reports, table, nuniq = run_units(units, timeout=30 if thorough else 20, retry=240 if thorough else 120,
+    reports, table, nuniq = run_units(units, timeout=30 if thorough else 10, retry=240 if thorough else 60,
                                       want_both=thorough)
     mine = {k: e for k, e in table.items() if prop in e["props"]}
     engine_errors = [f"{r['unit']}: {e}" for r in reports for e in r["errors"]]
